@@ -573,6 +573,8 @@ def r4c(ctx):
                   "kernels.len() * channels * height * width of a kernel", "%s::parameters: %s" % (adt, why))
 
 
+RULES["R10.4"] += " | layer-count: Dense::parameters = inputs*outputs (+ outputs iff bias), (De)Convolution::parameters = kernels.len() * channels * height * width of a kernel (polynomial identity on the E6 summary)"
+
 def run(ctx):
     ctx.guard("R10.4", "layer-counts", r4c, ctx)
     ctx.guard("R10.4", "network-count", r4b, ctx)
